@@ -54,6 +54,9 @@ struct GState {
     log: Vec<OpRec>,
     seq: u64,
     hook: Option<Hook>,
+    /// called after the operation has taken effect and was logged (outside the lock): a thread
+    /// parked here has e.g. already released META_LOCK but not yet returned from the guard's drop
+    post: Option<Hook>,
 }
 
 #[derive(Clone)]
@@ -124,6 +127,15 @@ impl GDir {
     fn set_hook(&self, h: Option<Hook>) {
         self.st.lock().unwrap_or_else(|e| e.into_inner()).hook = h;
     }
+    fn set_post_hook(&self, h: Option<Hook>) {
+        self.st.lock().unwrap_or_else(|e| e.into_inner()).post = h;
+    }
+    fn post_hook(&self, rec: &OpRec) {
+        let h = self.st.lock().unwrap_or_else(|e| e.into_inner()).post.clone();
+        if let Some(h) = h {
+            h(rec);
+        }
+    }
     fn log(&self) -> Vec<OpRec> {
         self.st.lock().unwrap_or_else(|e| e.into_inner()).log.clone()
     }
@@ -141,11 +153,16 @@ impl GDir {
         if let Some(h) = hook {
             h(&OpRec { seq: 0, thread: thread.clone(), kind, path: p.clone(), len: 0, ok: true, faulted: false, data: None });
         }
-        let mut g = self.st.lock().unwrap_or_else(|e| e.into_inner());
-        let (res, ok) = f();
-        g.seq += 1;
-        let seq = g.seq;
-        g.log.push(OpRec { seq, thread, kind, path: p, len: data.map(|d| d.len()).unwrap_or(0), ok, faulted: false, data: data.map(|d| d.to_vec()) });
+        let (res, rec) = {
+            let mut g = self.st.lock().unwrap_or_else(|e| e.into_inner());
+            let (res, ok) = f();
+            g.seq += 1;
+            let seq = g.seq;
+            let rec = OpRec { seq, thread, kind, path: p, len: data.map(|d| d.len()).unwrap_or(0), ok, faulted: false, data: data.map(|d| d.to_vec()) };
+            g.log.push(rec.clone());
+            (res, OpRec { data: None, ..rec })
+        };
+        self.post_hook(&rec);
         res
     }
 }
@@ -217,11 +234,16 @@ struct MGuard {
 impl Drop for MGuard {
     fn drop(&mut self) {
         self.dir.pre_hook(OpKind::Delete, &self.path);
-        let mut g = self.dir.st.lock().unwrap_or_else(|e| e.into_inner());
-        drop(self.inner.take());
-        g.seq += 1;
-        let seq = g.seq;
-        g.log.push(OpRec { seq, thread: thread_name(), kind: OpKind::Delete, path: self.path.clone(), len: 0, ok: true, faulted: false, data: None });
+        let rec = {
+            let mut g = self.dir.st.lock().unwrap_or_else(|e| e.into_inner());
+            drop(self.inner.take());
+            g.seq += 1;
+            let seq = g.seq;
+            let rec = OpRec { seq, thread: thread_name(), kind: OpKind::Delete, path: self.path.clone(), len: 0, ok: true, faulted: false, data: None };
+            g.log.push(rec.clone());
+            rec
+        };
+        self.dir.post_hook(&rec);
     }
 }
 
@@ -412,6 +434,9 @@ impl World {
     }
     fn rollback(&mut self) {
         self.w().rollback().unwrap();
+        // `rollback` replaces the writer by a fresh one with the default merge policy; the
+        // scenarios rely on merges happening only where they ask for them
+        self.w().set_merge_policy(Box::new(NoMergePolicy));
         self.live = self.committed.clone();
         self.ops.push("rollback".into());
     }
@@ -1142,18 +1167,26 @@ fn scenario_concurrent(ctx: &mut Ctx, seed: u64, reloads: usize, mmap: bool) {
     let mut gc_livings: Vec<Vec<String>> = vec![];
     {
         w.commit();
-        let mut living: Vec<String> = vec![META.to_string()];
-        for m in w.index.searchable_segment_metas().unwrap() {
-            living.extend(m.list_files().into_iter().map(|p| p.to_string_lossy().to_string()));
-        }
         if rng.chance(1, 2) {
             w.drop_writer();
         }
-        gc_livings.push(living.clone());
+        // like the writer's own GC, the living set is computed inside the closure, i.e. while
+        // garbage_collect holds META_LOCK (a set computed earlier could be stale)
+        let shared: Arc<Mutex<Vec<Vec<String>>>> = Arc::new(Mutex::new(vec![]));
+        let sh = shared.clone();
         let g = gdir.clone();
+        let idx_for_list = w.index.clone();
         let mut idx = w.index.clone();
-        let set: std::collections::HashSet<PathBuf> = living.iter().map(PathBuf::from).collect();
-        let res = catch_unwind(AssertUnwindSafe(|| idx.directory_mut().garbage_collect(move || { g.mark(MARK_GCLIST); set })));
+        let res = catch_unwind(AssertUnwindSafe(|| idx.directory_mut().garbage_collect(move || {
+            g.mark(MARK_GCLIST);
+            let mut living: Vec<String> = vec![META.to_string()];
+            for m in idx_for_list.searchable_segment_metas().expect("meta.json readable inside the GC closure") {
+                living.extend(m.list_files().into_iter().map(|p| p.to_string_lossy().to_string()));
+            }
+            sh.lock().unwrap().push(living.clone());
+            living.iter().map(PathBuf::from).collect::<std::collections::HashSet<PathBuf>>()
+        })));
+        gc_livings.extend(shared.lock().unwrap().iter().cloned());
         if !matches!(res, Ok(Ok(_))) {
             ctx.report.violation("oracle", "C05:gc-failed", "ManagedDirectory::garbage_collect failed or panicked".into(), case.clone());
         }
@@ -1423,15 +1456,25 @@ fn scenario_windows(ctx: &mut Ctx, seed: u64, windows: usize, mmap: bool) {
 // ------------------------------------------------------------------------------------------
 // S5: two overlapping reloads of one reader
 // ------------------------------------------------------------------------------------------
-fn scenario_overlap(ctx: &mut Ctx, seed: u64, mmap: bool) {
+/// Reload A of a reader is parked at one point of its execution; meanwhile a commit is made and a
+/// second reload B of the same reader is started (on the repaired tree B waits for A: reloads of
+/// one reader are serialised; it is given a short time and then A is resumed). After both have
+/// returned the reader must serve a commit at least as new as the one that was complete before B
+/// started. `pause`: 0 = just after A has released META_LOCK (inside the guard's drop, before
+/// `open_segment_readers` returns and the generation id is drawn), 1 = at A's first read of file
+/// bytes after the release (`SearcherInner::new`, before the ArcSwap store), 2 = before the n-th
+/// directory operation of A (lock creation, meta.json read, every segment file open, lock removal).
+fn scenario_overlap(ctx: &mut Ctx, seed: u64, mmap: bool, pause: u64) {
     let mut rng = Rng::new(seed);
-    let case = json!({"scenario": "overlap", "seed": seed, "mmap": mmap});
+    let case = json!({"scenario": "overlap", "seed": seed, "mmap": mmap, "pause": pause});
     let store = Store::new(mmap);
     let gdir = store.g.clone();
     let mut w = World::create(store.dir());
     let f = w.f;
-    { let n_ = 1 + rng.usize_below(6); w.add(&mut rng, n_) };
-    w.commit();
+    for _ in 0..1 + rng.usize_below(2) {
+        { let n_ = 1 + rng.usize_below(6); w.add(&mut rng, n_) };
+        w.commit();
+    }
     let second = Index::open(store.dir()).unwrap();
     let ridx = if rng.chance(1, 2) { second } else { w.index.clone() };
     let reader: IndexReader = match on_thread("c05-rd-5-init", { let g = gdir.clone(); move || { let r: tantivy::Result<IndexReader> = ridx.reader_builder().reload_policy(ReloadPolicy::Manual).try_into(); g.mark(MARK_PUB); r } }) {
@@ -1439,34 +1482,52 @@ fn scenario_overlap(ctx: &mut Ctx, seed: u64, mmap: bool) {
         _ => return,
     };
     { let n_ = 1 + rng.usize_below(4); w.add(&mut rng, n_) };
-    w.commit(); // commit A
-    // reload A is stopped at its first read of file bytes after it has released META_LOCK
-    // (SearcherInner::new opens the store readers there), i.e. between load and ArcSwap::store
+    w.commit(); // commit N
+    let nsegs = w.index.searchable_segment_ids().map(|v| v.len()).unwrap_or(1) as u64;
     let released = Arc::new(AtomicBool::new(false));
     let pauser = Pauser::new();
-    pauser.st.lock().unwrap().armed_at = Some(0);
+    let at = if pause == 2 { rng.below(3 + 7 * nsegs) } else { 0 };
+    pauser.st.lock().unwrap().armed_at = Some(at);
     {
         let rel = released.clone();
+        let p = pauser.clone();
         let hook: Hook = Arc::new(move |rec: &OpRec| {
-            if rec.thread == "c05-rd-5-a" && rec.kind == OpKind::Delete && rec.path == LOCK {
+            if rec.thread != "c05-rd-5-a" || rec.path == MARK_PUB {
+                return;
+            }
+            if pause == 2 {
+                p.at_op(&format!("{} {}", rec.kind.name(), rec.path));
+            } else if rec.kind == OpKind::Delete && rec.path == LOCK {
                 rel.store(true, Ordering::SeqCst);
             }
         });
         gdir.set_hook(Some(hook));
-        let rel = released.clone();
-        let p = pauser.clone();
-        gdir.set_read_hook(Some(Arc::new(move |path: &str| {
-            if rel.load(Ordering::SeqCst) && std::thread::current().name() == Some("c05-rd-5-a") {
-                p.at_op(&format!("read {path}"));
-            }
-        })));
+        if pause == 0 {
+            let p = pauser.clone();
+            gdir.set_post_hook(Some(Arc::new(move |rec: &OpRec| {
+                if rec.thread == "c05-rd-5-a" && rec.kind == OpKind::Delete && rec.path == LOCK {
+                    p.at_op("after delete .tantivy-meta.lock");
+                }
+            })));
+        }
+        if pause == 1 {
+            let rel = released.clone();
+            let p = pauser.clone();
+            gdir.set_read_hook(Some(Arc::new(move |path: &str| {
+                if rel.load(Ordering::SeqCst) && std::thread::current().name() == Some("c05-rd-5-a") {
+                    p.at_op(&format!("read {path}"));
+                }
+            })));
+        }
     }
     let mut per: Vec<Obs> = vec![];
     {
         let s = reader.searcher();
         per.push(Obs { ok: true, err: String::new(), sig: sig_of(&s), check: Some(s) });
     }
-    let (oa, ob, mid_sig) = std::thread::scope(|sc| {
+    let merge_too = rng.chance(1, 2);
+    let mut brng = rng.fork();
+    let (oa, ob, b_inside, jreq) = std::thread::scope(|sc| {
         let g = gdir.clone();
         let rd = reader.clone();
         let p2 = pauser.clone();
@@ -1485,92 +1546,133 @@ fn scenario_overlap(ctx: &mut Ctx, seed: u64, mmap: bool) {
             }
             g.paused
         };
-        ctx.report.count(if paused { "overlap:A-paused-between-release-and-store" } else { "overlap:A-not-paused" });
-        let mut ob = None;
-        let mut mid = None;
         if paused {
-            { let n_ = 1 + rng.usize_below(4); w.add(&mut rng, n_) };
-            w.commit(); // commit B
-            if rng.chance(1, 2) {
-                w.merge_all();
-            }
-            let g2 = gdir.clone();
-            let rd2 = reader.clone();
-            let b_done = Arc::new(AtomicBool::new(false));
-            let bd = b_done.clone();
-            let hb = std::thread::Builder::new().name("c05-rd-5-b".into()).spawn_scoped(sc, move || {
-                let o = do_reload(&g2, &rd2);
-                bd.store(true, Ordering::SeqCst);
-                o
-            }).unwrap();
-            // if reloads of one reader were serialised (a repair of S5), B waits behind A
-            let deadline = Instant::now() + Duration::from_millis(2500);
-            while !b_done.load(Ordering::SeqCst) && Instant::now() < deadline {
-                std::thread::sleep(Duration::from_millis(2));
-            }
-            let b_finished_inside = b_done.load(Ordering::SeqCst);
-            ctx.report.count(if b_finished_inside { "overlap:B-completed-while-A-in-flight" } else { "overlap:B-blocked-behind-A" });
-            if b_finished_inside {
-                mid = Some(sig_of(&reader.searcher()));
-            }
-            {
-                let mut g = pauser.st.lock().unwrap();
-                g.resume = true;
-                pauser.cv.notify_all();
-            }
-            ob = hb.join().ok();
+            let before = pauser.st.lock().unwrap().paused_before.clone();
+            let what = if pause == 0 { "after-lock-release".to_string() } else if pause == 1 { "store-read-after-release".to_string() } else {
+                format!("before-{}{}", before.split(' ').next().unwrap_or(""), if before.ends_with(LOCK) { "-lock" } else if before.ends_with(META) { "-meta" } else { "" })
+            };
+            ctx.report.count(&format!("overlap:A-paused:{what}"));
+        } else {
+            ctx.report.count("overlap:A-not-paused");
         }
-        (ha.join().ok(), ob, mid)
+        // commit N+1 (on its own thread: its GC waits for META_LOCK if A is parked inside it)
+        let metas_before = metas_of(&gdir.log()).len();
+        let burst_done = Arc::new(AtomicBool::new(false));
+        let bd = burst_done.clone();
+        let wref = &mut w;
+        let hw = std::thread::Builder::new().name("c05-writer-burst".into()).spawn_scoped(sc, move || {
+            { let n_ = 1 + brng.usize_below(4); wref.add(&mut brng, n_) };
+            wref.commit();
+            if merge_too {
+                wref.merge_all();
+            }
+            bd.store(true, Ordering::SeqCst);
+        }).unwrap();
+        let deadline = Instant::now() + Duration::from_secs(12);
+        while metas_of(&gdir.log()).len() <= metas_before && !burst_done.load(Ordering::SeqCst) && Instant::now() < deadline {
+            std::thread::sleep(Duration::from_millis(1));
+        }
+        // the newest commit that is complete before reload B starts
+        let jreq = metas_of(&gdir.log()).len().saturating_sub(1);
+        let g2 = gdir.clone();
+        let rd2 = reader.clone();
+        let b_done = Arc::new(AtomicBool::new(false));
+        let bd2 = b_done.clone();
+        let hb = std::thread::Builder::new().name("c05-rd-5-b".into()).spawn_scoped(sc, move || {
+            let o = do_reload(&g2, &rd2);
+            bd2.store(true, Ordering::SeqCst);
+            o
+        }).unwrap();
+        // serialised reloads (or A parked inside META_LOCK): B cannot finish before A is resumed
+        let deadline = Instant::now() + Duration::from_millis(400);
+        while !b_done.load(Ordering::SeqCst) && Instant::now() < deadline {
+            std::thread::sleep(Duration::from_millis(1));
+        }
+        let b_inside = b_done.load(Ordering::SeqCst);
+        if paused {
+            ctx.report.count(if b_inside { "overlap:B-completed-while-A-in-flight" } else { "overlap:B-blocked-behind-A" });
+        }
+        {
+            let mut g = pauser.st.lock().unwrap();
+            g.resume = true;
+            pauser.cv.notify_all();
+        }
+        let ob = hb.join().ok();
+        let oa = ha.join().ok();
+        let _ = hw.join();
+        (oa, ob, b_inside && paused, jreq)
     });
     gdir.set_hook(None);
+    gdir.set_post_hook(None);
     gdir.set_read_hook(None);
     let final_searcher = reader.searcher();
     let mut observed: Vec<((u64, u64), Obs)> = vec![((5, 0), per[0].clone())];
+    for (name, o) in [("A", &oa), ("B", &ob)] {
+        match o {
+            Some(o) if o.ok => {}
+            Some(o) => ctx.report.violation(if o.err == "PANIC" { "oracle" } else { "model" }, if o.err == "PANIC" { "C05:panic" } else { "C05:reload-failed" }, format!("overlap: reload {name} failed: {}", o.err), case.clone()),
+            None => ctx.report.violation("oracle", "C05:panic", format!("overlap: reload thread {name} panicked"), case.clone()),
+        }
+    }
     // publication order as observed: B returned (and was visible) before A returned, unless B
     // had to wait for A
-    if mid_sig.is_some() {
-        if let Some(o) = &ob {
-            per.push(o.clone());
-        }
-        if let Some(o) = &oa {
-            per.push(o.clone());
-        }
-    } else {
-        if let Some(o) = &oa {
-            per.push(o.clone());
-        }
-        if let Some(o) = &ob {
+    let order: [&Option<Obs>; 2] = if b_inside { [&ob, &oa] } else { [&oa, &ob] };
+    for o in order {
+        if let Some(o) = o {
             per.push(o.clone());
         }
     }
-    if let Some(o) = &oa {
-        observed.push(((5, 1), o.clone()));
-    }
-    if let Some(o) = &ob {
-        observed.push(((5, 2), o.clone()));
-    }
+    // sessions are numbered in the order in which they took META_LOCK
     let log = gdir.log();
-    let metas = metas_of(&log);
-    ctx.report.case(&format!("overlap|{seed}|{:?}|{:?}", mid_sig, sig_of(&final_searcher)), mid_sig.is_some());
-    // the final searcher is what the reader serves from now on
-    let fin = Obs { ok: true, err: String::new(), sig: sig_of(&final_searcher), check: Some(final_searcher.clone()) };
-    if let Some(j) = judge_obs(ctx, "overlap: final searcher", &fin, &metas, &w.by_opstamp, f, 0, metas.len().saturating_sub(1), &case) {
-        ctx.report.count(&format!("overlap:final-meta-is-{}", if j + 1 == metas.len() { "newest" } else { "older" }));
+    let mut k = 1u64;
+    for r in log.iter() {
+        if r.kind == OpKind::OpenWrite && r.path == LOCK && r.ok {
+            if r.thread == "c05-rd-5-a" {
+                if let Some(o) = &oa { observed.push(((5, k), o.clone())); }
+                k += 1;
+            } else if r.thread == "c05-rd-5-b" {
+                if let Some(o) = &ob { observed.push(((5, k), o.clone())); }
+                k += 1;
+            }
+        }
     }
-    let (tr, metas) = check_trace(ctx, "overlap", &gdir, &[], &observed, &w, &[], &case);
-    let mut per_reader = BTreeMap::new();
-    per_reader.insert(5u64, per);
-    check_monotone(ctx, "overlap", &tr, &metas, &per_reader, &case);
-    // a later, non-overlapping reload must bring the reader forward again
+    let metas = metas_of(&log);
+    ctx.report.case(&format!("overlap|{seed}|{pause}|{at}|{b_inside}|{:?}", sig_of(&final_searcher)), true);
+    let (tr, metas2) = check_trace(ctx, "overlap", &gdir, &[], &observed, &w, &[], &case);
+    let _ = metas2;
+    // oracle: the searcher served after both reloads have returned is at least as new as the
+    // commit that was complete before the later reload started
+    let fin = Obs { ok: true, err: String::new(), sig: sig_of(&final_searcher), check: Some(final_searcher.clone()) };
+    let fin_j = judge_obs(ctx, "overlap: final searcher", &fin, &metas, &w.by_opstamp, f, 0, metas.len().saturating_sub(1), &case);
+    let newest_cand = candidates(&metas, &fin.sig).into_iter().max();
+    let mut reported = false;
+    if let (Some(_), Some(jc)) = (fin_j, newest_cand) {
+        if jc < jreq {
+            let (seqok, _, raw) = ask_seq(ctx, 5, &tr);
+            let key = if seqok { "C05:reload-regressed-sequential" } else { "C05:overlapping-reloads-publish-out-of-order" };
+            ctx.report.violation("oracle", key, format!("overlap (A parked {}, op {at}): after both reloads returned the reader serves meta {jc}, but meta {jreq} was complete before the second reload started (model: {raw})", ["after releasing META_LOCK", "at its first read after releasing META_LOCK", "before a directory operation"][pause.min(2) as usize]), case.clone());
+            ctx.report.count("overlap:final-meta-is-older");
+            reported = true;
+        } else {
+            ctx.report.count("overlap:final-meta-is-new-enough");
+        }
+    }
+    if !reported {
+        let mut per_reader = BTreeMap::new();
+        per_reader.insert(5u64, per);
+        check_monotone(ctx, "overlap", &tr, &metas, &per_reader, &case);
+    }
+    // a later, non-overlapping reload must bring the reader to the newest commit
     let again = match on_thread("c05-rd-5-c", { let g = gdir.clone(); let rd = reader.clone(); move || do_reload(&g, &rd) }) {
         Ok(o) => o,
         Err(_) => return,
     };
+    let metas = metas_of(&gdir.log());
     if again.ok && !candidates(&metas, &again.sig).contains(&(metas.len() - 1)) {
         ctx.report.violation("oracle", "C05:reload-regressed-sequential", "a reload after both overlapping reloads had returned does not show the newest commit".into(), case.clone());
     }
     if ctx.report.samples.len() < 6 {
-        ctx.report.sample(json!({"scenario": "overlap", "trace": tr.events.join(";"), "metas": metas.len(), "final_sig_is_newest": candidates(&metas, &fin.sig).contains(&(metas.len() - 1))}));
+        ctx.report.sample(json!({"scenario": "overlap", "pause": pause, "paused_before_op": at, "B_completed_while_A_parked": b_inside, "trace": tr.events.join(";"), "metas": metas.len(), "required_meta": jreq, "final_meta": newest_cand}));
     }
 }
 
@@ -1732,7 +1834,7 @@ pub fn replay(ctx: &mut Ctx, case: &Value) {
         "fingerprint" => scenario_fingerprint(ctx, seed, case["mmap"].as_bool().unwrap_or(false), case["steps"].as_u64().unwrap_or(10) as usize),
         "concurrent" => scenario_concurrent(ctx, seed, case["reloads"].as_u64().unwrap_or(10) as usize, case["mmap"].as_bool().unwrap_or(false)),
         "windows" => scenario_windows(ctx, seed, case["windows"].as_u64().unwrap_or(8) as usize, case["mmap"].as_bool().unwrap_or(false)),
-        "overlap" => scenario_overlap(ctx, seed, case["mmap"].as_bool().unwrap_or(false)),
+        "overlap" => scenario_overlap(ctx, seed, case["mmap"].as_bool().unwrap_or(false), case["pause"].as_u64().unwrap_or(0)),
         "oncommit" => scenario_oncommit(ctx, seed, case["free_running"].as_bool().unwrap_or(false)),
         other => ctx.report.notes.push(format!("unknown replay scenario {other}")),
     }
@@ -1783,10 +1885,11 @@ pub fn run(ctx: &mut Ctx) {
         let free = i % 2 == 1;
         guarded(ctx, json!({"scenario": "oncommit", "seed": seed, "free_running": free}), |ctx| scenario_oncommit(ctx, seed, free));
     }
-    let n_ov = ctx.budget(8, 60);
+    let n_ov = ctx.budget(32, 240);
     for i in 0..n_ov {
         let seed = ctx.rng.next_u64();
-        let mmap = i % 4 == 3;
-        guarded(ctx, json!({"scenario": "overlap", "seed": seed, "mmap": mmap}), |ctx| scenario_overlap(ctx, seed, mmap));
+        let mmap = i % 8 == 7 || i % 8 == 4;
+        let pause = [0u64, 1, 2, 2][(i % 4) as usize];
+        guarded(ctx, json!({"scenario": "overlap", "seed": seed, "mmap": mmap, "pause": pause}), |ctx| scenario_overlap(ctx, seed, mmap, pause));
     }
 }
